@@ -765,17 +765,15 @@ def roi_from_points(
 
     ny, nx = shape
 
-    _in = np.floor(xy.min(axis=0)).astype("int32") - padding
-    _out = np.ceil(xy.max(axis=0)).astype("int32") + padding
+    # python ints: no overflow however far away outlying points are
+    _in = [int(math.floor(v)) - padding for v in xy.min(axis=0).tolist()]
+    _out = [int(math.ceil(v)) + padding for v in xy.max(axis=0).tolist()]
 
     if align is not None:
-        _in = align_down(_in, align)
-        _out = align_up(_out, align)
+        _in = [align_down(v, align) for v in _in]
+        _out = [align_up(v, align) for v in _out]
 
-    xx = np.asarray([_in[0], _out[0]])
-    yy = np.asarray([_in[1], _out[1]])
-
-    xx = np.clip(xx, 0, nx, out=xx)
-    yy = np.clip(yy, 0, ny, out=yy)
+    xx = [min(max(v, 0), nx) for v in (_in[0], _out[0])]
+    yy = [min(max(v, 0), ny) for v in (_in[1], _out[1])]
 
     return to_roi(yy, xx)
